@@ -514,6 +514,79 @@ namespace {
       }
       rep.count("traces");
    }
+
+   // "linkage / calling-convention / transfer values compare equal exactly when they are spelled the same": the finite space of
+   // 5 linkage spellings x 6 convention spellings, every value obtained through every public route (word_view and String
+   // overloads, the two-argument transfer, the from-linkage and from-convention shorthands, the function-type accessors),
+   // twice, in two request orders; == and != on ALL pairs of linkages, of conventions and of transfers against the spelling model.
+   void value_equalities(int order)
+   {
+      static const char8_t* const links[] = { u8"C++", u8"C", u8"Java", u8"", u8"C+" };
+      static const char8_t* const convs[] = { u8"", u8"stdcall", u8"fastcall", u8"cdecl", u8"stdcal", u8"C" };
+      constexpr int NL = 5, NC = 6;
+      ipr::impl::Lexicon lex;
+      struct LV { const ipr::Linkage* v; int l; std::string route; };
+      struct CV { const ipr::Calling_convention* v; int c; std::string route; };
+      struct TV { const ipr::Transfer* v; int l, c; std::string route; };
+      std::vector<LV> ls; std::vector<CV> cs; std::vector<TV> ts;
+      auto text = [](const char8_t* w) { return std::string(reinterpret_cast<const char*>(w)); };
+      auto witness = [&](const std::string& what) { return vf::JObj{}.str("pass", "C04").num("values", 1).num("order", order).raw("ops", "[]").str("pair", what).done(); };
+      for (int round = 0; round < 2; ++round)
+         for (int a = 0; a < NL; ++a) {
+            int l = order ? NL - 1 - a : a;
+            ls.push_back({ &lex.get_linkage(ipr::util::word_view(links[l])), l, "get_linkage(view \"" + text(links[l]) + "\")" });
+            ls.push_back({ &lex.get_linkage(lex.get_string(links[l])), l, "get_linkage(String \"" + text(links[l]) + "\")" });
+            rep.count("transitions", 2);
+         }
+      ls.push_back({ &lex.c_linkage(), 1, "c_linkage()" }); ls.push_back({ &lex.cxx_linkage(), 0, "cxx_linkage()" });
+      for (int round = 0; round < 2; ++round)
+         for (int a = 0; a < NC; ++a) {
+            int c = order ? NC - 1 - a : a;
+            cs.push_back({ &lex.get_calling_convention(ipr::util::word_view(convs[c])), c, "get_calling_convention(view \"" + text(convs[c]) + "\")" });
+            cs.push_back({ &lex.get_calling_convention(lex.get_string(convs[c]).characters()), c, "get_calling_convention(the interned spelling of \"" + text(convs[c]) + "\")" });
+            rep.count("transitions", 2);
+         }
+      ipr::impl::Warehouse<ipr::Type> w1; w1.push_back(static_cast<const ipr::Lexicon&>(lex).int_type());
+      auto& p1 = lex.get_product(w1);
+      for (int round = 0; round < 2; ++round)
+         for (int a = 0; a < NL * NC; ++a) {
+            int k = order ? NL * NC - 1 - a : a, l = k / NC, c = k % NC;
+            auto& lk = lex.get_linkage(links[l]); auto& cv = lex.get_calling_convention(convs[c]);
+            auto& t = lex.get_transfer(lk, cv);
+            std::string sp = "(\"" + text(links[l]) + "\", \"" + text(convs[c]) + "\")";
+            ts.push_back({ &t, l, c, "get_transfer" + sp });
+            if (c == 0) ts.push_back({ &lex.get_transfer_from_linkage(lk), l, 0, "get_transfer_from_linkage(\"" + text(links[l]) + "\")" });
+            if (l == 0) ts.push_back({ &lex.get_transfer_from_convention(cv), 0, c, "get_transfer_from_convention(\"" + text(convs[c]) + "\")" });
+            ts.push_back({ &lex.get_function(p1, static_cast<const ipr::Lexicon&>(lex).int_type(), t).transfer(), l, c, "get_function(.., " + sp + ").transfer()" });
+            rep.count("transitions", 4);
+            // components read back by spelling
+            auto spelled = [](const ipr::Logogram& g) { return U8(g.what().characters()); };
+            if (spelled(t.linkage().language()) != links[l] or spelled(t.convention().name()) != convs[c])
+               rep.violation("C04:transfer:components", 0, "get_transfer" + sp + " reports a linkage or convention spelled differently", witness(sp));
+         }
+      ts.push_back({ &ipr::impl::cxx_transfer(), 0, 0, "cxx_transfer()" });
+      for (auto& a : ls) for (auto& b : ls) {
+         rep.count("states");
+         bool expect = a.l == b.l;
+         if ((*a.v == *b.v) != expect or (*a.v != *b.v) == expect)
+            rep.violation(expect ? "C04:linkage:equal-spelling-compares-unequal" : "C04:linkage:different-spelling-compares-equal", 0, a.route + " vs " + b.route, witness(a.route + " / " + b.route));
+         if (expect and a.v != b.v) rep.violation("C04:linkage:same-request-different-node", 0, a.route + " and " + b.route + " are two nodes", witness(a.route + " / " + b.route));
+      }
+      for (auto& a : cs) for (auto& b : cs) {
+         rep.count("states");
+         bool expect = a.c == b.c;
+         if ((*a.v == *b.v) != expect or (*a.v != *b.v) == expect)
+            rep.violation(expect ? "C04:convention:equal-spelling-compares-unequal" : "C04:convention:different-spelling-compares-equal", 0, a.route + " vs " + b.route, witness(a.route + " / " + b.route));
+         if (expect and a.v != b.v) rep.violation("C04:convention:same-request-different-node", 0, a.route + " and " + b.route + " are two nodes", witness(a.route + " / " + b.route));
+      }
+      for (auto& a : ts) for (auto& b : ts) {
+         rep.count("states");
+         bool expect = a.l == b.l and a.c == b.c;
+         if ((*a.v == *b.v) != expect or (*a.v != *b.v) == expect)
+            rep.violation(expect ? "C04:transfer:equal-spelling-compares-unequal" : "C04:transfer:different-spelling-compares-equal", 0, a.route + " vs " + b.route, witness(a.route + " / " + b.route));
+      }
+      rep.count("traces");
+   }
 }
 
 int main(int argc, char** argv)
@@ -528,6 +601,7 @@ int main(int argc, char** argv)
       int mode = int(vf::json_int(text, "mode")), breadth = int(vf::json_int(text, "breadth"));
       std::printf("replay C04: %zu steps, %s, breadth %d\n", ops.size(), mode_name[mode], breadth);
       if (vf::json_int(text, "reserved") > 0) reserved_sweep();
+      else if (vf::json_int(text, "values") > 0) value_equalities(int(vf::json_int(text, "order")));
       else if (vf::json_int(text, "long") > 0) long_history(mode, int(vf::json_int(text, "long")), int(vf::json_int(text, "ins_order")));
       else run(std::vector<int>(ops.begin(), ops.end()), mode, breadth, true);
       for (auto& [k, v] : rep.viols) std::printf("violated: %s  (%s)\n", k.c_str(), v.what.c_str());
@@ -535,6 +609,7 @@ int main(int argc, char** argv)
    }
    const bool deep = opt.thorough();
    if (opt.shard == 0) reserved_sweep();
+   if (opt.shard == 2 % opt.shards) { value_equalities(0); value_equalities(1); }
    explore(deep ? 3 : 2, 1, { 0, 1, 2 });
    explore(deep ? 4 : 3, 0, { 0, 1, 2 });
    if (not opt.expired()) {
